@@ -255,6 +255,8 @@ def _phase(arg):
                 rec['pattern'] = k
                 rec['iter'] = sorted(tuple(tuple(int(c) for c in r) for r in np.asarray(m))
                                      for m, _ in gen.iter_matrices(existence=exist[k]))
+            elif kind in ('proc_first_use', 'proc_use'):
+                rec.update(_proc_op(trace, op))
             elif kind == 'reset_sel':
                 settings, _ = gen_settings.build(trace['settings'][op[1]])
                 sel.EncoderSelector(settings).reset_cache()
@@ -284,6 +286,54 @@ def _phase(arg):
             simenv.reset()
         out.append(rec)
     return {'status': 'ok', 'records': out}
+
+
+def _proc_op(trace, op):
+    """The optimizer bridge's pattern at the process level: a processor whose very first use is a time-limited
+    get_all_discrete_x (which lazily triggers the hierarchy analysis, the encoder selection and the cache writes inside
+    the limited call), killed at delivery point k ('proc_first_use'); and the plain use of a fresh processor
+    ('proc_use': variables + decode table)."""
+    from simkit import gen_dsg, hashorder
+    from adsg_core.optimization.graph_processor import GraphProcessor
+    from checks.session import obs_dvs, obs_x, obs_instance
+    spec = trace['graphs'][op[1]]
+    out = {}
+    hashorder.install(trace['env_seed'] + 3)
+    try:
+        built = gen_dsg.build(spec)
+        p = GraphProcessor(built.dsg)
+        if op[0] == 'proc_first_use':
+            k = op[2]
+            simenv.reset(lambda idx, site: (k if (idx == 0 and k is not None) else None))
+            if op[3]:
+                simenv.State.record = []
+            try:
+                simenv.vlimiter(1.0, lambda: p.get_all_discrete_x())
+                out['first_use'] = 'ok'
+            except TimeoutError:
+                out['first_use'] = 'killed'
+            out['points'] = simenv.State.calls[-1][2] if simenv.State.calls else 0
+            if op[3]:
+                out['record'] = list(simenv.State.record)
+        else:
+            dvs = p.des_vars
+            out['dvs'] = obs_dvs(dvs)
+            import itertools
+            opts = [list(range(d.n_opts)) if d.is_discrete else [d.bounds[0], d.bounds[1]] for d in dvs]
+            space = 1
+            for o in opts:
+                space *= len(o)
+            rng = random.Random(trace['env_seed'])
+            vecs = [list(v) for v in itertools.product(*opts)] if space <= 64 else \
+                [[rng.choice(o) for o in opts] for _ in range(40)]
+            rows = []
+            for x in vecs:
+                g, xi, act = p.get_graph(list(x))
+                rows.append((tuple(x), obs_x(xi), tuple(bool(a) for a in act), obs_instance(g)))
+            out['table'] = rows
+    finally:
+        hashorder.uninstall()
+    return out
 
 
 def _files(cache_dir):
@@ -353,9 +403,9 @@ def execute(trace):
     res['digest'] = h.hexdigest()
     res['stats'] = dict(stats)
     res['trace'] = trace
-    nt = stats.get('fault:limiter_kill', 0) + stats.get('fault:candidate_rejected', 0) + stats.get('probe:cache_hit', 0) \
+    nt = stats.get('fault:limiter_kill', 0) + stats.get('fault:limiter_kill_in_first_use', 0) + stats.get('fault:candidate_rejected', 0) + stats.get('probe:cache_hit', 0) \
         + sum(v for k, v in stats.items() if k.startswith('fault:disk_'))
-    res['nontrivial_key'] = hashlib.sha256(repr((trace['settings'], trace['phases'])).encode()).hexdigest()[:20] \
+    res['nontrivial_key'] = hashlib.sha256(repr((trace['settings'], trace.get('graphs'), trace['phases'])).encode()).hexdigest()[:20] \
         if nt else None
     res['interleaving'] = hashlib.sha256(repr([[o[0] for o in p['ops']] for p in trace['phases']]).encode()).hexdigest()[:16]
     return res
@@ -441,6 +491,33 @@ def _judge(trace, pi, oi, rec, log, stats, tainted, cold_dir, env):
         if rec['count'] != total:
             raise Viol('C12/count-wrong', f'{where}: count_all_matrices = {rec["count"]}, reference {total}')
         stats['agg_checked'] += 1
+    elif kind == 'proc_first_use':
+        log.append(('proc_first_use', pi, oi, rec['status'], rec.get('first_use'), op[2]))
+        if rec['status'] == 'exc':
+            # the graph itself cannot be processed (empty design space, library defect): nothing to learn about caches
+            stats['probe:proc_first_use_failed:' + rec['exc'][0]] += 1
+            return
+        if rec.get('first_use') == 'killed':
+            stats['fault:limiter_kill_in_first_use'] += 1
+    elif kind == 'proc_use':
+        log.append(('proc_use', pi, oi, rec['status'], len(rec.get('table') or [])))
+        cold = _cold_proc(trace, op, cold_dir)
+        stats['cold_twins'] += 1
+        if cold['status'] == 'exc':
+            stats['probe:proc_use_cold_failed:' + cold['exc'][0]] += 1
+            if rec['status'] != 'exc' or rec['exc'][0] != cold['exc'][0]:
+                raise Viol('C12/processor-differs-from-cold', f'{where}: cold processor fails with {cold["exc"][:2]} but through '
+                                                              f'the cache directory: {rec.get("exc", "ok")}')
+            return
+        if rec['status'] == 'exc':
+            msg = '-'.join(''.join(ch for ch in rec['exc'][1] if ch.isalpha() or ch == ' ').split()[:4])
+            raise Viol(f'C12/cache-poisoned/{rec["exc"][0]}:{msg}@{rec["exc"][2]}',
+                       f'{where}: a fresh processor on the cache directory left behind by earlier (time-limited) use fails: '
+                       f'{rec["exc"]}; files {_files(env.dir + "/main")[:6]}')
+        if (rec['dvs'], rec['table']) != (cold['dvs'], cold['table']):
+            raise Viol('C12/processor-differs-from-cold', f'{where}: variables / decode table through the cache directory '
+                                                          f'differ from a processor on an empty cache directory')
+        stats['proc_tables_compared'] += 1
     elif kind == 'iter':
         spec = trace['settings'][op[1]]
         log.append(('iter', pi, oi, rec['status'], rec.get('pattern')))
@@ -485,6 +562,22 @@ def _producer(trace, pi, oi):
             if prod is None or not o[2]:
                 prod = (a, b)
     return prod
+
+
+def _cold_proc_phase(arg):
+    trace, op, cold_dir = arg
+    t = dict(trace, phases=[{'ops': [op]}])
+    return _phase((t, 0, cold_dir))
+
+
+def _cold_proc(trace, op, cold_dir):
+    import shutil
+    for f in os.listdir(cold_dir):
+        shutil.rmtree(os.path.join(cold_dir, f), ignore_errors=True)
+    r = runner.fork_call(_cold_proc_phase, (trace, op, cold_dir), 300.0)
+    if r.get('status') != 'ok':
+        raise RuntimeError('cold phase failed: ' + str(r.get('detail'))[:500])
+    return r['records'][0]
 
 
 def _cold_phase(arg):
@@ -585,6 +678,72 @@ def generate_enum(seed, tier='quick', index=0):
                                                                        'stride_min_points': 24 if tier == 'quick' else 100}}
 
 
+WRITE_FUNCS = ('_write_to_cache', 'get_best_assignment_manager', 'iter_n_sources_targets', 'get_agg_matrix',
+               '_load_from_cache', 'get_cache_path', 'reset_cache', 'reset_agg_matrix_cache')
+
+
+def generate_bridge(seed, tier='quick', index=0):
+    """Crash consistency of the library's own caches under the library's own limiter: first use of a processor for a
+    graph with a connection choice happens inside a time-limited call that is killed at delivery point k; afterwards a
+    fresh process must still get a working processor from the same cache directory, equal to one on an empty directory."""
+    from simkit import gen_dsg
+    s = Streams(seed)
+    rng = s('gen')
+    spec = gen_dsg.gen_selection_spec(rng, n_incompat_max=0, p_cycle=0.0, p_shared=0.0, acyclic=True, tree_options=True,
+                                      max_choices=rng.choice([0, 1, 2]), size=rng.randint(2, 6))
+    spec = gen_dsg.add_conn_choice(rng, spec, p_group=0.0, max_side=2)
+    return {'property': PROPERTY, 'engine': ENGINE, 'seed': seed, 'settings': [], 'graphs': [spec], 'phases': [],
+            'env_seed': s.int_seed('env'), 'config': 'bridge',
+            'bridge': {'n_random': 6 if tier == 'quick' else 40, 'all_write_points': True}}
+
+
+def _execute_bridge(trace):
+    base = copy.deepcopy(trace)
+    base['config'] = 'in-contract'
+    base['phases'] = [{'ops': [['proc_first_use', 0, None, True]], 'disk_faults': []}]
+    with simenv.RunEnv(trace['env_seed']) as env:
+        r = runner.fork_call(_phase, (base, 0, env.dir), 300.0)
+    if r.get('status') != 'ok':
+        raise RuntimeError('dry phase failed: ' + str(r.get('detail'))[:400])
+    rec = r['records'][0]
+    agg = collections.Counter()
+    digests, keys = [], []
+    first = None
+    sub = 1
+    if rec['status'] == 'ok' and rec.get('points'):
+        K = rec['points']
+        record = rec.get('record') or []
+        wpts = sorted({n for n, fn in record if fn in WRITE_FUNCS})
+        near = sorted({m for n in wpts for m in (n - 1, n, n + 1) if 1 <= m <= K})
+        rng = random.Random(trace['env_seed'])
+        pts = sorted(set(near) | {rng.randint(1, K) for _ in range(trace['bridge']['n_random'])} | {1, K})
+        if len(pts) > (60 if trace['bridge']['n_random'] <= 6 else 400):
+            pts = sorted(rng.sample(pts, 60 if trace['bridge']['n_random'] <= 6 else 400))
+        agg['bridge_points_existing'] = K
+        agg['bridge_points_in_cache_functions'] = len(wpts)
+        for k in pts:
+            t = copy.deepcopy(base)
+            t['phases'] = [{'ops': [['proc_first_use', 0, k, False]], 'disk_faults': []},
+                           {'ops': [['proc_use', 0]], 'disk_faults': []}]
+            rr = _execute_plain(t)
+            sub += 1
+            for kk, v in rr['stats'].items():
+                agg[kk] += v
+            digests.append(rr['digest'])
+            if rr['nontrivial_key']:
+                keys.append(rr['nontrivial_key'])
+            if rr['status'] == 'violation' and first is None:
+                first = rr
+        agg['bridge_points_covered'] = len(pts)
+    else:
+        agg['probe:bridge_graph_unusable'] += 1
+    res = {'status': 'ok', 'digest': hashlib.sha256(''.join(digests).encode()).hexdigest(), 'stats': dict(agg),
+           'nontrivial_key': keys, 'sub_runs': sub, 'trace': trace, 'interleaving': None}
+    if first is not None:
+        res.update(status='violation', clause=first['clause'], detail=first['detail'], trace=first['trace'])
+    return res
+
+
 def _execute_enum(trace):
     """Dry selection to learn the limited calls and their delivery-point counts; then one 2-phase run per kill point."""
     base = copy.deepcopy(trace)
@@ -638,6 +797,8 @@ _execute_plain = execute
 def execute(trace):  # noqa: F811
     if trace.get('config') == 'enum' and not trace['phases']:
         return _execute_enum(trace)
+    if trace.get('config') == 'bridge' and not trace['phases']:
+        return _execute_bridge(trace)
     return _execute_plain(trace)
 
 
